@@ -1,4 +1,5 @@
 """C15 -- reflections, walls, fixed points (R1, U1). Narrow."""
+from ..rules import misc_rules as MI
 from ..rules import dtype_rules as DT
 from ..rules import hyp_rules as H
 from ..rules import cache_rules as CA
@@ -20,6 +21,7 @@ def run(ctx):
     ctx.do(SH.rule_ax1, [SH.CORE, H.HYP], scope=ctx.scope(ENTRIES))
     ctx.do(SI.rule_ref1)
     ctx.do(SI.rule_flip1)
+    ctx.do(MI.rule_sgn1, [H.HYP, "geometry_tools/utils/core.py"])
     ctx.do(DT.rule_cx1, [H.HYP])
     ctx.do(DT.rule_lk1, [H.HYP], scope=ctx.scope(ENTRIES))
     ctx.do(CA.rule_c2, "ProjectiveObject", scope=ctx.scope(ENTRIES))
